@@ -25,6 +25,9 @@ const (
 	calcFragmentHeaderQueueSize        = 16
 	maxAudioCacheDelayByAudio   uint64 = 150 * 90 // 单位（毫秒*90）
 	maxAudioCacheDelayByVideo   uint64 = 300 * 90 // 单位（毫秒*90）
+
+	// PES_packet_length（16位）= 3 + 5（只有PTS的PES头）+ 数据
+	maxAudioCacheSize = 0xFFFF - 8
 )
 
 type IRtmp2MpegtsRemuxerObserver interface {
@@ -422,7 +425,10 @@ func (s *Rtmp2MpegtsRemuxer) feedAudio(msg base.RtmpMsg) {
 
 	pts := uint64(msg.Header.TimestampAbs) * 90
 	if msg.AudioCodecId() == base.RtmpSoundFormatAac {
-		if !s.audioCacheEmpty() && s.audioCacheFirstFramePts+maxAudioCacheDelayByAudio < pts {
+		// 除了缓存时长达到阈值，时间戳回退（否则回退多久就缓存多久）、缓存大小超过一个PES能表示的长度时，也要吐出
+		if !s.audioCacheEmpty() && (s.audioCacheFirstFramePts+maxAudioCacheDelayByAudio < pts ||
+			pts < s.audioCacheFirstFramePts ||
+			len(s.audioCacheFrames)+aac.AdtsHeaderLength+len(msg.Payload)-2 > maxAudioCacheSize) {
 			s.FlushAudio()
 		}
 
